@@ -24,20 +24,20 @@ type reservation struct {
 // walletRig is a real wallet over a real manager plus the harness's own
 // bookkeeping of what is reserved.
 type walletRig struct {
-	e     *sim.Env
-	net   *gen.Net
-	tree  *gen.Tree
-	s     *chainSUT
-	me    gen.Actor
-	st    *walletStore
-	sy    *recSyncer
-	w     *wallet.SingleAddressWallet
-	opts  []wallet.Option
-	resD  time.Duration
-	tip   *gen.Node
-	now   time.Time
-	resv  []*reservation
-	bo    gen.BlockOpts
+	e    *sim.Env
+	net  *gen.Net
+	tree *gen.Tree
+	s    *chainSUT
+	me   gen.Actor
+	st   *walletStore
+	sy   *recSyncer
+	w    *wallet.SingleAddressWallet
+	opts []wallet.Option
+	resD time.Duration
+	tip  *gen.Node
+	now  time.Time
+	resv []*reservation
+	bo   gen.BlockOpts
 }
 
 func (r *walletRig) sync() {
@@ -661,9 +661,9 @@ var _ = chain.ErrMissingBlock
 func init() {
 	register(&Prop{
 		ID: "C07", Run: runC07, Quick: 700, Thorough: 20000, Level: "exploration",
-		Rule: "one run = drawn wallet options (defrag threshold 0-40, max inputs for defrag 0-40, max defrag outputs 0-12, reservation 1s-6h) and a chain that leaves the wallet with mature, immature, pool-spent and unconfirmed outputs; then 10-40 drawn operations: FundV2Transaction (0, 1H, exactly spendable, spendable+1H, drawn; with/without unconfirmed), sign+broadcast / keep outstanding / release, Redistribute, SplitUTXO, blocks confirming the pool, clock jumps around the reservation period, reorgs, restart (new manager with empty pool + new wallet on the same store re-loading broadcast sets), foreign payments into the pool; after every operation: selection rules (owned, mature, unspent, not pool-spent, not reserved by an outstanding request), value conservation, failed calls change nothing, signed results accepted by the pool, and Balance().Spendable == sum(SpendableOutputs()) == independent model == largest fundable amount; distinct = abstract trace; non-trivial = a clock jump, reorg or restart",
-		Real: []string{"wallet.SingleAddressWallet (funding, signing, redistribute, split, release, broadcast, restart)", "chain.Manager", "chain.DBStore"},
-		Stub: []string{"wallet store: harness walletStore", "syncer: recording stub", "disk: simdisk.DB"},
+		Rule:        "one run = drawn wallet options (defrag threshold 0-40, max inputs for defrag 0-40, max defrag outputs 0-12, reservation 1s-6h) and a chain that leaves the wallet with mature, immature, pool-spent and unconfirmed outputs; then 10-40 drawn operations: FundV2Transaction (0, 1H, exactly spendable, spendable+1H, drawn; with/without unconfirmed), sign+broadcast / keep outstanding / release, Redistribute, SplitUTXO, blocks confirming the pool, clock jumps around the reservation period, reorgs, restart (new manager with empty pool + new wallet on the same store re-loading broadcast sets), foreign payments into the pool; after every operation: selection rules (owned, mature, unspent, not pool-spent, not reserved by an outstanding request), value conservation, failed calls change nothing, signed results accepted by the pool, and Balance().Spendable == sum(SpendableOutputs()) == independent model == largest fundable amount; distinct = abstract trace; non-trivial = a clock jump, reorg or restart",
+		Real:        []string{"wallet.SingleAddressWallet (funding, signing, redistribute, split, release, broadcast, restart)", "chain.Manager", "chain.DBStore"},
+		Stub:        []string{"wallet store: harness walletStore", "syncer: recording stub", "disk: simdisk.DB"},
 		Assumptions: []string{"sequential interleaving of wallet calls in this check; lock-level interleavings belong to the instrumented flavour"},
 	})
 }
